@@ -63,7 +63,7 @@ struct DsoRange { uintptr_t lo, hi; } dsos[64]; int ndso = 0;
 // shadow memory: one entry per 8-byte word with byte masks (a conflict needs overlapping bytes). Consecutive words map to
 // consecutive entries (blocks of 64 words) so that a child touches few shadow pages.
 struct Shadow { uintptr_t key; uint32_t wclk; uint32_t wpc, rpc; uint32_t rclk[MAXT]; uint8_t rmask[MAXT]; uint8_t wtid, watomic, wmask, ratomic_mask, used; };
-enum { SHBITS = 18, SHSIZE = 1 << SHBITS, SHBLOCK = 64 };
+enum { SHBITS = 21, SHSIZE = 1 << SHBITS, SHBLOCK = 64 };
 Shadow* shadow = nullptr;
 struct Sync { const void* addr; VC vc; int owner; int used; int waiting_cond; };
 enum { SYBITS = 12, SYSIZE = 1 << SYBITS };
